@@ -17,14 +17,31 @@ import sys, os, json, subprocess, re
 REPO = sys.argv[1] if len(sys.argv) > 1 else '/repo'
 COQ = sys.argv[2] if len(sys.argv) > 2 else os.path.join(os.path.dirname(os.path.dirname(os.path.abspath(__file__))), 'coq')
 
-# (file, function) in dependency order is not needed: calls go through indices
-FUNCS = [
-    ('uc.c', 'uc_len'), ('uc.c', 'uc_code'), ('uc.c', 'uc_beg'), ('uc.c', 'uc_end'), ('uc.c', 'uc_next'),
-    ('uc.c', 'uc_prev'), ('uc.c', 'uc_slen'), ('uc.c', 'uc_chr'), ('uc.c', 'uc_off'),
-    ('uc.c', 'uc_isspace'), ('uc.c', 'uc_isprint'), ('uc.c', 'uc_isalpha'), ('uc.c', 'uc_isdigit'), ('uc.c', 'uc_kind'),
-    ('uc.c', 'uc_acomb'), ('uc.c', 'find'), ('uc.c', 'uc_isdw'), ('uc.c', 'uc_iszw'), ('uc.c', 'uc_wid'), ('uc.c', 'uc_isbell'),
-    ('uc.c', 'find_achar'), ('uc.c', 'can_join'), ('uc.c', 'uc_cshape'), ('uc.c', 'uc_cput'),
-]
+# the whitelist: tools/c2clite.d/*.list in file-name order, one "file.c function [coq-name]" per line.
+# New functions are appended (a later list file or the end of a list), so that the indices F_* and the
+# theorems already proved about earlier functions are not disturbed.
+LISTDIR = os.path.join(os.path.dirname(os.path.abspath(__file__)), 'c2clite.d')
+
+
+def read_lists():
+    out = []
+    for fn in sorted(os.listdir(LISTDIR)):
+        if not fn.endswith('.list'):
+            continue
+        for line in open(os.path.join(LISTDIR, fn)):
+            line = line.split('#')[0].split()
+            if not line:
+                continue
+            if len(line) not in (2, 3):
+                die('%s: bad line %r' % (fn, line))
+            out.append((line[0], line[1], line[2] if len(line) == 3 else line[1]))
+    names = [c for _, _, c in out]
+    if len(set(names)) != len(names):
+        die('duplicate Coq names in the whitelist')
+    return out
+
+
+FUNCS = read_lists()          # (file, C name, Coq name)
 BUILTINS = {'isspace': 'BIsspace', 'isdigit': 'BIsdigit', 'isalpha': 'BIsalpha', 'isupper': 'BIsupper', 'islower': 'BIslower',
             'isalnum': 'BIsalnum', 'isprint': 'BIsprint', 'tolower': 'BTolower', 'toupper': 'BToupper',
             'strlen': 'BStrlen', 'strchr': 'BStrchr'}
@@ -77,6 +94,7 @@ def qt(node):
 class Types:
     def __init__(self):
         self.structs = {}     # name -> [(field, type string)]
+        self.loader = None    # called with a struct name that is not known yet
 
     def parse(self, s):
         """-> ('int', ity) | ('ptr', elem) | ('arr', elem, n) | ('struct', name) | ('void',) | ('fn',)"""
@@ -121,15 +139,21 @@ class Types:
         if t[0] == 'arr':
             return t[2] * self.bytes_(t[1])
         if t[0] == 'struct':
-            fs = [self.parse(ft) for _, ft in self.struct(t[1])]
-            # only structs whose fields all have the same size (no padding question)
-            sizes = set(self.bytes_(f) for f in fs)
-            if len(sizes) != 1:
-                raise Unsupported('sizeof of a struct with mixed field sizes')
-            return sum(self.bytes_(f) for f in fs)
+            # x86-64 SysV layout of a struct of scalars: each field aligned to its size, the whole to the largest
+            off, al = 0, 1
+            for _, ft in self.struct(t[1]):
+                f = self.parse(ft)
+                if f[0] not in ('int', 'ptr'):
+                    raise Unsupported('sizeof of a struct with a non-scalar field')
+                sz = self.bytes_(f)
+                off = (off + sz - 1) // sz * sz + sz
+                al = max(al, sz)
+            return (off + al - 1) // al * al
         raise Unsupported('sizeof %r' % (t,))
 
     def struct(self, name):
+        if name not in self.structs and self.loader:
+            self.loader(name)
         if name not in self.structs:
             raise Unsupported('struct %s not found' % name)
         return self.structs[name]
@@ -373,11 +397,12 @@ class Fn:
                 raise Unsupported('indirect call')
             name = callee['referencedDecl']['name']
             al = '[' + '; '.join(self.rv(a) for a in args) + ']'
-            if name in self.tr.index:
-                return '(ECall F_%s %s)' % (name, al)
+            coq = self.tr.resolve(name)
+            if coq is not None:
+                return '(ECall F_%s %s)' % (coq, al)
             if name in BUILTINS:
                 return '(EBuiltin %s %s)' % (BUILTINS[name], al)
-            raise Unsupported('call of %s (neither translated nor a modelled library function)' % name)
+            return '(ECall %s %s)' % (self.tr.extern(name), al)
         if k == 'UnaryExprOrTypeTraitExpr':
             if n.get('name') != 'sizeof':
                 raise Unsupported(n.get('name', 'trait'))
@@ -476,11 +501,32 @@ class Fn:
 class Translator:
     def __init__(self):
         self.types = Types()
-        self.index = {f: i for i, (_, f) in enumerate(FUNCS)}
+        self.index = {c: i for i, (_, _, c) in enumerate(FUNCS)}
+        self.byfile = {(f, n): c for f, n, c in FUNCS}
+        self.externs = []
+        self.types.loader = self.load_struct
         self.globals = []        # (name, coq block text)
         self.gindex = {}
         self.gvars = {}          # file-level cache: name -> VarDecl node
         self.cur_file = None
+
+    def resolve(self, cname):
+        """Coq name of the translated function a call to `cname` in the current file reaches, or None"""
+        if (self.cur_file, cname) in self.byfile:
+            return self.byfile[(self.cur_file, cname)]
+        cands = [c for (f, n), c in self.byfile.items() if n == cname]
+        return cands[0] if len(cands) == 1 else None
+
+    def extern(self, cname):
+        """a function that is not translated: calling it is the error EShape (no such index in cprog)"""
+        if cname not in self.externs:
+            self.externs.append(cname)
+        return 'X_' + cname
+
+    def load_struct(self, name):
+        for d in ast_docs(os.path.join(REPO, self.cur_file), name):
+            if d.get('kind') == 'RecordDecl' and d.get('name') == name and d.get('completeDefinition'):
+                self.types.structs[name] = [(c['name'], qt(c)) for c in d.get('inner', []) if c['kind'] == 'FieldDecl']
 
     def literal(self, node):
         v = node['value']          # a C literal text with quotes
@@ -573,23 +619,15 @@ class Translator:
         self.globals.append((name, 'map VInt [%s]' % '; '.join(Z(c) for c in cells)))
         return 'G_' + name
 
-    def load_structs(self, file):
-        docs = ast_docs(os.path.join(REPO, file), 'achar')
-        for d in docs:
-            if d.get('kind') == 'RecordDecl' and d.get('name') and d.get('completeDefinition'):
-                fs = [(c['name'], qt(c)) for c in d.get('inner', []) if c['kind'] == 'FieldDecl']
-                self.types.structs[d['name']] = fs
-
     def run(self):
         out = []
         by_file = {}
-        for f, fn in FUNCS:
-            by_file.setdefault(f, []).append(fn)
+        for f, fn, coq in FUNCS:
+            by_file.setdefault(f, []).append((fn, coq))
         bodies = {}
         for f, fns in by_file.items():
             self.cur_file = f
-            self.load_structs(f)
-            for fn in fns:
+            for fn, coq in fns:
                 decl = None
                 for d in ast_docs(os.path.join(REPO, f), fn):
                     if d.get('kind') == 'FunctionDecl' and d.get('name') == fn and any(c.get('kind') == 'CompoundStmt' for c in d.get('inner', [])):
@@ -597,7 +635,7 @@ class Translator:
                 if decl is None:
                     die('function %s not found in %s' % (fn, f))
                 try:
-                    bodies[fn] = Fn(self, decl).translate()
+                    bodies[coq] = Fn(self, decl).translate()
                 except Unsupported as e:
                     die('%s:%s uses a construct outside the translated subset: %s' % (f, fn, e))
         w = out.append
@@ -607,8 +645,11 @@ class Translator:
         w('Import ListNotations.')
         w('Local Open Scope Z_scope.')
         w('')
-        for i, (_, fn) in enumerate(FUNCS):
-            w('Definition F_%s : nat := %d%%nat.' % (fn, i))
+        for i, (_, _, coq) in enumerate(FUNCS):
+            w('Definition F_%s : nat := %d%%nat.' % (coq, i))
+        w('')
+        for i, name in enumerate(self.externs):
+            w('Definition X_%s : nat := %d%%nat.   (* not translated: a call is the error EShape *)' % (name, 5000 + i))
         w('')
         for i, (name, _) in enumerate(self.globals):
             w('Definition G_%s : nat := %d%%nat.' % (name, i))
@@ -617,12 +658,13 @@ class Translator:
             w('Definition gb_%s : block := %s.' % (name, txt))
         w('Definition cglobals : mem := [%s].' % '; '.join('gb_' + n for n, _ in self.globals))
         w('')
-        for _, fn in FUNCS:
+        for f, cn, fn in FUNCS:
             np, nl, s = bodies[fn]
+            w('(* %s: %s *)' % (f, cn))
             w('Definition cf_%s : cfunc := mkfn %d %d' % (fn, np, nl))
             w('  %s.' % s)
         w('')
-        w('Definition cprog : list cfunc := [%s].' % '; '.join('cf_' + fn for _, fn in FUNCS))
+        w('Definition cprog : list cfunc := [%s].' % '; '.join('cf_' + fn for _, _, fn in FUNCS))
         text = '\n'.join(out) + '\n'
         path = os.path.join(COQ, 'GenCFuncs.v')
         old = open(path).read() if os.path.exists(path) else None
